@@ -1276,13 +1276,17 @@ class _FuncEval:
         except RecursionError:
             return self.record(fn, args, kwargs, st, n)
         live = [e for e in sm.exits if e.kind in ("ret", "raise")]
+        leaf = not any(c.fn[0] in ("func", "closure", "boundcls") and not c.inlined for c in sm.calls)
+        body = [b for b in getattr(f.node, "body", []) if not (isinstance(b, ast.Expr) and isinstance(b.value, ast.Constant))] \
+            if not isinstance(f.node, ast.Lambda) else []
+        expr_wrapper = isinstance(f.node, ast.Lambda) or (len(body) == 1 and isinstance(body[0], ast.Return))
         if (len(live) == 1 and live[0].kind == "ret" and not live[0].cond and not sm.loops and not sm.effects
-                and not sm.unsupported and not any(c.fn[0] in ("func", "closure") and not c.inlined for c in sm.calls)):
-            # trivial wrapper: inline the value; keep its external calls as call records of the caller
+                and not sm.unsupported and not sm.trys and (leaf or expr_wrapper)):
+            # single-return wrapper: inline the value; its own calls become call records of the caller
             val = live[0].value
             for c in sm.calls:
                 self.s.calls.append(CallRec(c.fn, c.args, c.kwargs, st.cond + c.cond, tuple(self.loop_stack), n,
-                                            c.result, tuple(self.try_stack), True))
+                                            c.result, tuple(self.try_stack), c.inlined))
             self.s.calls.append(CallRec(fn, tuple(args), tuple(sorted(kwargs.items())), st.cond,
                                         tuple(self.loop_stack), n, val, tuple(self.try_stack), True))
             return val
